@@ -296,3 +296,35 @@ Fixpoint first_diff_nospan (a b : node) {struct a} : option (list nat) :=
            | _, _ => Some [i]
            end) 0 ca cb
   end.
+
+(** ** The printed content re-parses to the same tree (up to what text cannot carry).
+    Spans are ignored by [node_eqb_nospan]; parentheses are a property of the text, not of the tree;
+    a literal's [raw] spelling may be re-rendered by the printer. *)
+(** Does the chain below reach a [?.] link without leaving the chain? *)
+Fixpoint spine_has_optional (n : node) : bool :=
+  match n with
+  | Node (K KOptChain _ _) [Node (Bln true) []; _] => true
+  | Node (K KOptChain _ _) [_; base] => spine_has_optional base
+  | Node (K KMember _ _) [obj; _] => spine_has_optional obj
+  | Node (K KCall _ _) [_; callee; _; _] => spine_has_optional callee
+  | _ => false
+  end.
+
+Definition norm_post (n : node) : node :=
+  match n with
+  | Node (K KParen _ _) [e] => if spine_has_optional e then n else e   (* only such parentheses carry meaning *)
+  | Node (K KOptChain _ _) [Node (Bln false) []; base] => base           (* continuation links are implied by the text *)
+  | Node (K KStr lo hi) (v :: _) => Node (K KStr lo hi) [v]
+  | Node (K KNum lo hi) (v :: _) => Node (K KNum lo hi) [v]
+  | Node (K KBigInt lo hi) (v :: _) => Node (K KBigInt lo hi) [v]
+  | Node (K KTplElem lo hi) [tail; cooked; raw] => Node (K KTplElem lo hi) [tail; raw]
+  | Node Obj [Node (Num _) []; Node (Num _) []] => Node Obj [nNum "0"; nNum "0"]  (* a span that is not the node's own *)
+  | Node Lst cs => Node Lst (filter (fun x => negb (is_kind KEmptyStmt x)) cs)   (* a stray `;` in a statement list *)
+  | _ => n
+  end.
+
+Fixpoint norm_print (n : node) : node :=
+  match n with Node t cs => norm_post (Node t (map norm_print cs)) end.
+
+Definition roundtrip_ok (out reparsed : node) : bool :=
+  node_eqb_nospan (norm_print out) (norm_print reparsed).
